@@ -94,7 +94,7 @@ def extra_phase(tier, seed):
     with mp.get_context("fork").Pool(14) as pool:
         res = pool.map(_enum_job, jobs, chunksize=1)
     out = {"violations": [], "evaluations": 0, "distinct_nontrivial": 0, "forced_orders_honoured": 0, "forced_orders_not_admissible_skipped": 0, "forced_patterns": 0,
-           "exhaustive_orders": [1, 2, 3] + ([4] if tier == "thorough" else []), "exhaustive": tier == "thorough"}
+           "exhaustive_orders": [1, 2, 3] + ([4] if tier == "thorough" else []), "enum_exhaustive": tier == "thorough"}
     for (text, v) in res:
         f = v.get("f", {})
         out["evaluations"] += int(f.get("enum_runs", 0)); out["distinct_nontrivial"] += int(f.get("enum_honoured", 0))
